@@ -151,7 +151,19 @@ def verify_function(tu, fn_name, contracts, int_mode='bv', num_mode='real', pref
         rv = s.ghost.get('$ret')
         extra = {'result': view(exe, s, rv, rt)}
         suffix = '' if len(rets) == 1 else '#%d' % i
-        for cname, term in eval_clauses(exe, con.get('ensures', {}), s, fn_name, pre=pre, extra=extra):
+        ens = {}
+        for cname, src in (con.get('ensures', {}).items() if isinstance(con.get('ensures', {}), dict) else enumerate(con.get('ensures', []))):
+            if isinstance(src, tuple):
+                # (guard, body): the body is only evaluated on paths where the guard can hold (e.g. result != NULL)
+                g = eval_clauses(exe, {'g': src[0]}, s, fn_name, pre=pre, extra=extra)[0][1]
+                if z3.is_false(simp(g)):
+                    continue
+                ens[cname] = 'implies(%s, %s)' % (src[0], src[1])
+            else:
+                ens[cname] = src
+        for cname, term in eval_clauses(exe, ens, s, fn_name, pre=pre, extra=extra):
+            if con.get('quiet_trivial') and z3.is_true(simp(term)):
+                continue       # e.g. `result == NULL implies ...` on a path that returns a string literal: not counted
             exe.emit('%s/ensures/%s%s' % (fn_name, cname, suffix), term, s, kind='post')
         if con.get('ensures_hook'):
             con['ensures_hook'](exe, s, pre, rv, suffix)
